@@ -38,6 +38,30 @@ func HostileDocs() *TextSet {
 	})
 }
 
+// HostileDocs2: keys that collide with a nested path when paths are printed or joined with a separator
+// ({"a":{"b":1}} next to {"a b":1}, "a/b", "a.b", "a,b", "ab"), keys that start like a flag or like the append
+// token ("-x", "--", "-1e3"), and keys that contain valid percent escapes ("a%20b", "100%25", "%41").
+func HostileDocs2() *TextSet {
+	return memoize("hostile2", func() *TextSet {
+		var out []V
+		for _, sep := range []string{" ", "/", ".", ",", "", "~1", "%20"} {
+			joined := "a" + sep + "b"
+			out = append(out,
+				map[string]interface{}{"a": map[string]interface{}{"b": 1.0}, joined: 1.0, "z": []interface{}{1.0, 2.0}},
+				map[string]interface{}{"a": map[string]interface{}{"b": 2.0}, joined: 1.0, "z": []interface{}{1.0, 2.0}},
+				map[string]interface{}{"a": map[string]interface{}{"b": 1.0}, joined: 2.0, "z": []interface{}{1.0, 2.0}},
+				map[string]interface{}{"a": map[string]interface{}{"b": 2.0}, joined: 3.0, "z": []interface{}{2.0}},
+				map[string]interface{}{joined: []interface{}{1.0, 2.0, 3.0}}, map[string]interface{}{joined: []interface{}{1.0, 3.0}})
+		}
+		for _, k := range []string{"-x", "--", "-debug", "-1e3", "a%20b", "100%25", "%41", "%", "%zz", "a b", "+", "1-", "-1-"} {
+			out = append(out, map[string]interface{}{k: 1.0}, map[string]interface{}{k: 2.0}, map[string]interface{}{k: []interface{}{1.0, 2.0, 3.0}}, map[string]interface{}{k: []interface{}{1.0, 3.0}},
+				map[string]interface{}{"x": map[string]interface{}{k: []interface{}{2.0}}}, map[string]interface{}{"x": map[string]interface{}{k: []interface{}{2.0, 1.0}}})
+		}
+		out = append(out, map[string]interface{}{})
+		return NewTextSet(out)
+	})
+}
+
 // HostileArrays: arrays that change with context lines below keys that need escaping.
 func HostileArrays() *TextSet {
 	return memoize("hostile-arrays", func() *TextSet {
@@ -65,6 +89,7 @@ func c09Spaces(tier string) []pairLeg {
 		add("U4", U(4))
 		add("hostile", HostileDocs())
 		add("hostile-arrays", HostileArrays())
+		add("hostile2", HostileDocs2())
 		add("large", Large())
 		add("E2", EditStates(2, 1200))
 		add("deep", Deep(true))
@@ -80,6 +105,7 @@ func c09Spaces(tier string) []pairLeg {
 		add("U3", U(3))
 		add("hostile", thin(HostileDocs(), 220))
 		add("hostile-arrays", HostileArrays())
+		add("hostile2", HostileDocs2())
 		add("large", Large())
 		add("deep", Deep(true))
 		add("mixed", Mixed())
